@@ -51,7 +51,7 @@ PROPS["C02"] = {
     "nontrivial_min_tokens": 30,
 }
 PROPS["C13"] = {
-    "level_text": "Theorems for every trained IVF state, query, k, threshold, id restriction and probe count: untrained add/search is an error; the answer is the exact top-k, by true metric distance, of the live eligible vectors of the probed clusters; with all clusters probed (or nprobes <= 0 / above nlist) it carries exactly the score sequence and length of exhaustive search over the same vectors; with more probes every rank is at least as good and the answer never shorter; Train establishes and Add/Remove/Flush keep the one-list-per-centroid invariant. Assignment to the first arg-min centroid is by construction of the model and compared structurally (dump) every run, together with k-means re-run inside the model. Also proved: a vector added is found by a query with that very vector at every probe count >= 1 (the stable probe order starts at the first arg-min centroid). Histories include ids added again while live (stored twice, like the code; score oracles abstain, removed-never-appears still decides).",
+    "level_text": "Theorems for every trained IVF state, query, k, threshold, id restriction and probe count: untrained add/search is an error; the answer is the exact top-k, by true metric distance, of the live eligible vectors of the probed clusters; with all clusters probed (or nprobes <= 0 / above nlist) it carries exactly the score sequence and length of exhaustive search over the same vectors; with more probes every rank is at least as good and the answer never shorter; Train establishes and Add/Remove/Flush keep the one-list-per-centroid invariant. Assignment to the first arg-min centroid is by construction of the model and compared structurally (dump) every run, together with k-means re-run inside the model. Also proved: a vector added is found by a query with that very vector at every probe count >= 1 (the stable probe order starts at the first arg-min centroid). Histories include ids added again while live (stored twice, like the code; score oracles abstain, removed-never-appears still decides). Run-time oracles on the implementation's own centroids and lists: with every cell probed the answer is held against ALL eligible live vectors (nothing strictly better than the last hit may be missing), with fewer probes against the vectors of the strictly nearer cells; under autocut the same holds as a prefix property. Data strata include near-duplicate points (distances far below 1e-6 that are not ties) and clusters of very different radius.",
     "level_note": "Trusted: as C02. The partial-probe clause is additionally decided per run by an oracle evaluated on the implementation's own centroids and lists (probe_specb), so that a wrong probe order yields a failing query, not only a divergence.",
     "correspondence": "ivf_index*.go + clustering.go ~ Model.VecIndex (KIVF) / Model.KMeans",
     "assumptions": ["equidistant centroids at the probe boundary make the probed set ambiguous (unstable sort): such cases are compared for soundness only"],
@@ -112,10 +112,10 @@ PROPS["C08"] = {
     "correspondence": "storage*.go ~ Model.Store (checker 800, incl. structure observations: segment ids / cached flags / memtable count)",
     "nontrivial_min_tokens": 60, "sub_max_len": 30000, "sub_per_checker": 4, "gen_timeout": 1500,
 }
-PROPS["C09"] = dict(PROPS["C08"], level_text="As C08 with 1..4 open/close sessions and reopening with fresh templates: durability after Flush/Close is REFUTED on the faithful model (theorem + witness add;Close;reopen;search), reproduced as a KNOWN-FINDING; 'segment identifiers are never reused' is proved for flush and compaction (invariant: all ids <= counter, pairwise distinct) and the reopen counter is the maximum id of any file name. Template kinds: flat and trained IVF (a fresh template trained on a fresh sample at every open); over IVF the specification demands that a live document is returned for its own stored vector at any probe count (theorem C13_added_vector_found_by_own_query). The hnsw template kind is covered differentially (checker 801): a store over HNSW in its exact regime against a store over flat, same history incl. reopen with fresh templates, identical answers demanded.")
+PROPS["C09"] = dict(PROPS["C08"], level_text="As C08 with 1..4 open/close sessions and reopening with fresh templates: durability after Flush/Close is REFUTED on the faithful model (theorem + witness add;Close;reopen;search), reproduced as a KNOWN-FINDING; 'segment identifiers are never reused' is proved for flush and compaction (invariant: all ids <= counter, pairwise distinct) and the reopen counter is the maximum id of any file name. Template kinds: flat and trained IVF (a fresh template trained on a fresh sample at every open); over IVF the specification demands that a live document is returned for its own stored vector at any probe count (theorem C13_added_vector_found_by_own_query). The hnsw template kind is covered differentially (checker 801): a store over HNSW in its exact regime against a store over flat, same history incl. reopen with fresh templates, identical answers demanded. Every look at the registered segments is also held against two model-independent demands: every segment whose files are all present and readable is registered (registered_ok), and an identifier that appears for the first time lies above every identifier ever seen in the directory. Histories end with several restarts in a row, include one-segment histories beyond 32 KiB per component, in-place updates of live ids, and directory names with pattern, shell and URL metacharacters.")
 PROPS["C09"]["correspondence"] = "storage.go/storage_provider.go/storage_segment.go ~ Model.Store (reopen = open_store over the directory listing)"
 
-PROPS["C10"] = dict(PROPS["C08"], level_text="Crash images are taken by a verif handler at every file-operation boundary of flushMemtable / writeIndexToSegment / compactSegments / deleteSegment (create x4, close, before/after registration, before drop, unregister, each file removal) plus synthetic byte-prefixes of the file being written in close order; each image is reopened by the real code with fresh templates and searched, and compared with the faithful model (segment files complete / truncated / payload-complete-truncated / empty / missing) and with the specification (everything covered by a completed Flush is found, nothing never-added or from an incomplete segment appears, reopening and searching never fail). Theorems: a segment with a broken/missing/empty hybrid or component file is ignored without touching the shared states and is never cached; identifiers are not reused; the half-load through a truncated LATER component is refuted with a witness. The order in which the component files are completed is OBSERVED at hook points after each gzip close (never assumed); a half-load in a crash image is a violation (the unchanged writers finish hybrid_ last), every finding code a case meets must be listed.")
+PROPS["C10"] = dict(PROPS["C08"], level_text="Crash images are taken by a verif handler at every file-operation boundary of flushMemtable / writeIndexToSegment / compactSegments / deleteSegment (create x4, close, before/after registration, before drop, unregister, each file removal) plus synthetic byte-prefixes of the file being written in close order; each image is reopened by the real code with fresh templates and searched, and compared with the faithful model (segment files complete / truncated / payload-complete-truncated / empty / missing) and with the specification (everything covered by a completed Flush is found, nothing never-added or from an incomplete segment appears, reopening and searching never fail). Theorems: a segment with a broken/missing/empty hybrid or component file is ignored without touching the shared states and is never cached; identifiers are not reused; the half-load through a truncated LATER component is refuted with a witness. The order in which the component files are completed is OBSERVED at hook points after each gzip close (never assumed); a half-load in a crash image is a violation (the unchanged writers finish hybrid_ last), every finding code a case meets must be listed. After the searches on a reopened crash image the store is closed and restarted once more before the next flush: identifiers seen in any listing (partial segments included) stay spent whatever was deleted in between (violation -16).")
 PROPS["C10"]["correspondence"] = "storage.go flush/compaction + storage_segment.go getIndex + storage_provider.go ~ Model.Store (load_segment, open_store)"
 
 PROPS["C17"] = {
